@@ -47,6 +47,7 @@ pub struct FreeInfo {
     pub stream_items: usize,
     pub effects: usize,
     pub events: usize,
+    pub drops: usize,
 }
 
 /// programs whose outcome is a function of the *set* of calls made, not of their order
@@ -144,6 +145,8 @@ impl Side {
 
 #[derive(Clone)]
 enum Work {
+    /// typed hosts: drop the request unanswered, then make a no-op call
+    Drop(Path),
     Resolve(Path, Out),
     Send(Option<u16>),
     View,
@@ -193,6 +196,11 @@ fn exec(host: &FHost, side_uni: u64, sink: &Sink, w: Work, handle: Option<Handle
             let nonce = out.nonce;
             let r = host.resolve(&mut h, out)?;
             Done::Resolved(path, h, nonce, r)
+        }
+        Work::Drop(path) => {
+            sink.push(Tr::DropReq(path));
+            drop(handle);
+            Done::Sent(host.event(Event::Noop)?)
         }
         Work::Send(p) => Done::Sent(host.event(match p {
             Some(p) => Event::Start { uni: side_uni, prog: p },
@@ -347,6 +355,7 @@ pub fn run_free(case: &FreeCase) -> Result<FreeInfo, String> {
     let mut returned_ever = BTreeSet::new();
     let mut inv = Inv { sent: BTreeMap::new(), received: BTreeMap::new(), next_seq: BTreeMap::new(), updates: vec![] };
     let mut kinds: BTreeMap<Path, u8> = BTreeMap::new();
+    let mut traced: BTreeSet<Path> = BTreeSet::new();
     let mut nonce = 0u32;
 
     // phase 0: start the first program, alone, on both sides
@@ -356,6 +365,7 @@ pub fn run_free(case: &FreeCase) -> Result<FreeInfo, String> {
         // ---- materialise the calls of this phase against the concurrent side's pool
         let mut avail: Vec<Path> = conc.pool.keys().cloned().collect();
         let mut started = false;
+        let mut dropped_now: Vec<Path> = vec![];
         let mut plan: Vec<Vec<Work>> = vec![];
         for jobs in threads.iter().take(4) {
             let mut mine = vec![];
@@ -368,6 +378,21 @@ pub fn run_free(case: &FreeCase) -> Result<FreeInfo, String> {
                         let p = avail.remove(pick(*c, avail.len()));
                         nonce += 1;
                         mine.push(Work::Resolve(p, Out::new(nonce)));
+                    }
+                    Job::Drop(c) => {
+                        // (a serialized shell holds ids, not request objects: nothing to drop there)
+                        // only requests of leaves the trace can see: when the invisible task of an opaque chain is
+                        // discarded after a drop cannot be told, and whether a concurrent resolution of another of
+                        // its requests is accepted depends on exactly that moment
+                        let cands: Vec<usize> = (0..avail.len()).filter(|i| traced.contains(&avail[*i])).collect();
+                        // (in the legacy API a dropped request wakes nobody: whether its task ever notices depends on
+                        // what else wakes it afterwards, i.e. on the order of the calls)
+                        if cands.is_empty() || matches!(*conc.host, FHost::Byte(_)) || legacy {
+                            continue;
+                        }
+                        let p = avail.remove(cands[pick(*c, cands.len())]);
+                        dropped_now.push(p.clone());
+                        mine.push(Work::Drop(p));
                     }
                     Job::Start(p) if !started => {
                         started = true;
@@ -401,7 +426,7 @@ pub fn run_free(case: &FreeCase) -> Result<FreeInfo, String> {
         let uni_id = conc.uni_id();
         let mut joins = vec![];
         for mine in plan.iter().cloned() {
-            let handles: Vec<Option<Handle>> = mine.iter().map(|w| if let Work::Resolve(p, _) = w { conc.pool.get_mut(p).map(|(_, h)| std::mem::replace(h, Handle::Id(u32::MAX))) } else { None }).collect();
+            let handles: Vec<Option<Handle>> = mine.iter().map(|w| if let Work::Resolve(p, _) | Work::Drop(p) = w { conc.pool.get_mut(p).map(|(_, h)| std::mem::replace(h, Handle::Id(u32::MAX))) } else { None }).collect();
             let (host, sink, barrier) = (conc.host.clone(), conc.sink.clone(), barrier.clone());
             joins.push(std::thread::spawn(move || -> Result<Vec<Done>, String> {
                 barrier.wait();
@@ -425,6 +450,9 @@ pub fn run_free(case: &FreeCase) -> Result<FreeInfo, String> {
         }
         let mut views = vec![];
         let got = absorb(&mut conc, done, Some(&mut returned_ever), &mut views)?;
+        for p in &dropped_now {
+            conc.pool.remove(p);
+        }
         for o in &got.effects {
             kinds.insert(o.path.clone(), o.kind);
         }
@@ -432,6 +460,7 @@ pub fn run_free(case: &FreeCase) -> Result<FreeInfo, String> {
             // (the sequential prologue is judged like any other phase)
         }
         let trace = conc.sink.take();
+        traced.extend(trace.iter().filter_map(|t| if let Tr::FirstPoll(p) = t { Some(p.clone()) } else { None }));
         inv.check(&trace, &got, &kinds)?;
         let view = conc.host.view()?;
         if view != inv.updates {
@@ -460,7 +489,7 @@ pub fn run_free(case: &FreeCase) -> Result<FreeInfo, String> {
         let tuni = twin.uni_id();
         for mine in plan.iter().cloned() {
             for w in mine {
-                let h = if let Work::Resolve(p, _) = &w {
+                let h = if let Work::Resolve(p, _) | Work::Drop(p) = &w {
                     match twin.pool.get_mut(p) {
                         Some((_, h)) => Some(std::mem::replace(h, Handle::Id(u32::MAX))),
                         None => return Err(format!("the sequential twin has no outstanding request {p:?} although the concurrent run has (the two diverged in an earlier phase)")),
@@ -473,6 +502,10 @@ pub fn run_free(case: &FreeCase) -> Result<FreeInfo, String> {
         }
         let mut tviews = vec![];
         let mut want = absorb(&mut twin, tdone, None, &mut tviews)?;
+        for p in &dropped_now {
+            twin.pool.remove(p);
+        }
+        info.drops += dropped_now.len();
         let ttrace = twin.sink.take();
         // A stream whose consumer ends during this phase (a loop that stops after n items) accepts an
         // item or not depending on which call comes first: both answers belong to a sequential order.
